@@ -24,6 +24,7 @@ FIBRE_SPACE = {
     'nl': ['area83', 'area50', 'gamma1.3', 'gamma2.0'],
     'con_in': [0.0, 0.5],
     'loss_table': [False, True],
+    'sim': ['plain', 'computed_channels', 'computed_number', 'raman_off_explicit'],
 }
 
 
@@ -133,8 +134,14 @@ def configured_gamma_ref(fc):
 
 def run_case(case):
     import numpy as np
-    c.set_sim_params({'nli_params': {'method': 'gn_model_analytic'}, 'raman_params': {'flag': False}})
     fc = case['fibre']
+    # simulation parameters that the analytic method must not be influenced by
+    nlip = {'method': 'gn_model_analytic'}
+    if fc.get('sim') == 'computed_channels':
+        nlip['computed_channels'] = [1, 2]
+    elif fc.get('sim') == 'computed_number':
+        nlip['computed_number_of_channels'] = 2
+    c.set_sim_params({'nli_params': nlip, 'raman_params': {'flag': False}})
     viol = []
 
     def v(fp, what, **kw):
@@ -148,8 +155,22 @@ def run_case(case):
     if not math.isclose(g_ref, configured_gamma_ref(fc), rel_tol=1e-9):
         v('gamma-not-configured-value', f'fibre configured with {fc["nl"]}: gamma(ref frequency) = {g_ref!r}, '
           f'expected {configured_gamma_ref(fc)!r}')
+    # beta2 follows the documented conversion of the configured dispersion (and slope) at every frequency
+    for f in (191.4e12, 193.414489e12, 196.0e12):
+        lam, lam0 = C0 / f, 1550e-9
+        if fc['slope'] is None:
+            exp_b2 = -C0 * fc['dispersion'] / (2 * math.pi * (C0 / lam0) ** 2)
+        else:
+            exp_b2 = -(lam ** 2) * (fc['dispersion'] + fc['slope'] * (lam - lam0)) / (2 * math.pi * C0)
+        got_b2 = float(np.atleast_1d(fib.beta2(np.array([f])))[0])
+        if not math.isclose(got_b2, exp_b2, rel_tol=1e-9):
+            v('beta2-not-documented-conversion', f'fibre dispersion {fc["dispersion"]} slope {fc["slope"]}: beta2({f / 1e12} THz) = '
+              f'{got_b2!r}, expected {exp_b2!r}')
+            break
     nontriv = 0
     for cb_spec in case['combs']:
+        if fc.get('sim') in ('computed_channels', 'computed_number') and len(cb_spec['types']) < 2:
+            continue
         cb = comb(cb_spec['types'], cb_spec['pattern'], cb_spec.get('gap', False))
         n = len(cb['f'])
         si = make_si(cb)
@@ -276,6 +297,7 @@ def main(rep, tier, seed):
     sp = engine.Space(FIBRE_SPACE)
     d = 2 if tier == 'quick' else 3
     fibres = [{k: v for k, v in x.items() if k != '_dev'} for x in sp.enumerate(d)]
+    # computed_channels [1, 2] needs combs of >= 2 channels: single-channel combs are skipped for that setting in run_case
     combs = all_combs(tier, seed)
     chunk = 40
     cases = []
